@@ -88,26 +88,31 @@ def write_if_changed(path, text):
     return True
 
 
-def regenerate_gen():
+def regenerate_gen(prop=None):
     """Gen/*.v are regenerated from /repo on every run (write-if-changed so that an
-    unchanged tree costs no recompilation)."""
+    unchanged tree costs no recompilation). A generator may declare `# props: C04 C19` in its
+    first lines; it is then run only by the checks of those properties (and by setup, prop=None)."""
     gen_dir = os.path.join(VERIF, 'tools', 'gen')
     msgs = []
     if os.path.isdir(gen_dir):
         for f in sorted(os.listdir(gen_dir)):
             if f.endswith('.py'):
+                head = ''.join(open(os.path.join(gen_dir, f)).readlines()[:8])
+                m = re.search(r'#\s*props:\s*([A-Z0-9 ,]+)', head)
+                if prop and m and prop not in re.split(r'[ ,]+', m.group(1).strip()):
+                    continue
                 rc, out = run([sys.executable, os.path.join(gen_dir, f)], cwd=VERIF, env=goenv(), timeout=600)
                 if rc != 0:
                     msgs.append('generator %s failed:\n%s' % (f, out[-3000:]))
     return msgs
 
 
-def build_coq():
+def build_coq(prop=None):
     """full .vo build under a lock; returns (ok, log)"""
     os.makedirs(COQ, exist_ok=True)
     with open(os.path.join(COQ, '.lock'), 'w') as lk:
         fcntl.flock(lk, fcntl.LOCK_EX)
-        msgs = regenerate_gen()
+        msgs = regenerate_gen(prop)
         if msgs:
             return False, '\n'.join(msgs)
         run(['sh', os.path.join(VERIF, 'tools', 'gen_coqproject.sh')], cwd=COQ)
